@@ -636,6 +636,17 @@ Inductive reach_from (get : str -> option fragdef) (start : list str) : str -> P
 (** transitively spread from a selection set *)
 Definition reach (get : str -> option fragdef) (ss : selset) : str -> Prop := reach_from get (spreads_of ss).
 
+(** validation rule 5.5.2.1 (fragment spread target defined) on a whole document, fragments that no
+    operation spreads included: every spread anywhere names a defined fragment *)
+Definition def_selset (d : execdef) : option selset :=
+  match d with DOp o => Some (op_sel o) | DFrag f => Some (fr_sel f) | DImport _ => None end.
+Definition spreads_defined_b (defs : list execdef) : bool :=
+  forallb (fun d => match def_selset d with
+                    | Some ss => forallb (fun n => match get_frag defs n with Some _ => true | None => false end)
+                                         (spreads_of ss)
+                    | None => true
+                    end) defs.
+
 (** the same on abstract documents, computed by saturation (used by [holds] on the implementation's output) *)
 Fixpoint a_spreads (x : asel) : list str :=
   match x with
